@@ -148,11 +148,19 @@ impl std::fmt::Debug for V {
 }
 
 /// Interned field with a constant hash: all values land in one shard so reclamation is frequent.
-#[derive(Clone, Copy, PartialEq, Eq, Debug)]
+#[derive(Clone, Copy, Eq, Debug)]
 pub struct KHash(pub u16);
+
+impl PartialEq for KHash {
+    fn eq(&self, other: &Self) -> bool {
+        crate::sink::fault_step(crate::fault::FSite::KeyEq);
+        self.0 == other.0
+    }
+}
 
 impl Hash for KHash {
     fn hash<H: Hasher>(&self, state: &mut H) {
+        crate::sink::fault_step(crate::fault::FSite::KeyHash);
         0u8.hash(state)
     }
 }
@@ -594,6 +602,7 @@ fn body_maker<'db>(db: &'db dyn Hdb, k: NodeKey) -> Vec<Ent<'db>> {
             n as u32,
             out.len() as u32,
         ));
+        ctx.fault.step(ctx, crate::fault::FSite::Mid);
         let spec_on = match &mk.spec_when {
             Some(w) if mk.specify.is_some() => eval(db, w, &cx) != 0,
             _ => true,
@@ -696,6 +705,7 @@ fn eval<'db>(db: &'db dyn Hdb, e: &Expr, cx: &Cx<'db>) -> u16 {
             let cell = ctx.cells.get().unwrap()[*c];
             let v = if *f == 0 { cell.a(db) } else { cell.b(db) };
             ctx.log.push(Rec::Read(ReadK::In(*c as u32, *f as u32), v));
+            ctx.fault.step(ctx, crate::fault::FSite::Mid);
             v
         }
         Expr::Call(n) => {
@@ -704,6 +714,7 @@ fn eval<'db>(db: &'db dyn Hdb, e: &Expr, cx: &Cx<'db>) -> u16 {
                 ReadK::Call(fnk_of(ctx.prog.nodes[*n].kind), *n as u32, 0),
                 v,
             ));
+            ctx.fault.step(ctx, crate::fault::FSite::Mid);
             v
         }
         Expr::CallMulti(n, a) => {
@@ -818,6 +829,7 @@ fn eval<'db>(db: &'db dyn Hdb, e: &Expr, cx: &Cx<'db>) -> u16 {
                 ReadK::Interned(*s as u8, id.index(), id.generation()),
                 back,
             ));
+            ctx.fault.step(ctx, crate::fault::FSite::Mid);
             back
         }
         Expr::OnSym(e) => {
@@ -857,6 +869,7 @@ fn eval<'db>(db: &'db dyn Hdb, e: &Expr, cx: &Cx<'db>) -> u16 {
             let x = (act_tag(cx.act) << 16) | v as u32;
             Diag(x).accumulate(db);
             ctx.log.push(Rec::Pushed(x));
+            ctx.fault.step(ctx, crate::fault::FSite::Mid);
             v
         }
     }
